@@ -13,8 +13,13 @@ namespace CoapVerif.Model.PoolMessage
 open CoapVerif.Spec.Wire (Bytes Opt Msg)
 open CoapVerif.Model.OptionCodec
 
+/-- Needs the shape facts of the source: the capacity at least doubles, 0 is replaced by a positive value, and there
+is NO cap on the capacity (with a cap that is not an error the loop re-enters the same state forever). -/
 theorem newCap_gt (cap : Nat) : cap < newCap cap := by
-  unfold newCap; split <;> omega
+  unfold newCap
+  simp only [CoapVerif.Generated.PoolRetry.retryFactor, CoapVerif.Generated.PoolRetry.retryZeroCap,
+    CoapVerif.Generated.PoolRetry.retryCapLimit]
+  by_cases h : cap * 2 = 0 <;> simp [h] <;> omega
 
 theorem decode_optCap_lt {c : Coder} {cap : Nat} {data : Bytes} (h : c.decode cap data = .error .optCap) :
     cap < data.length := by
